@@ -12,7 +12,7 @@
 
 use rio_xml::RdfXmlFormatter;
 use sophia_api::serializer::{Stringifier, TripleSerializer};
-use sophia_api::source::{SinkError, StreamResult, TripleSource};
+use sophia_api::source::{SinkError, SourceError, StreamResult, TripleSource};
 use sophia_rio::serializer::rio_format_triples;
 use std::io;
 
@@ -91,8 +91,18 @@ where
             RdfXmlFormatter::new(&mut self.write)
         };
         let mut tf = res.map_err(SinkError)?;
-        rio_format_triples(&mut tf, source)?;
-        tf.finish().map_err(SinkError)?;
+        match rio_format_triples(&mut tf, source) {
+            Ok(()) => {
+                tf.finish().map_err(SinkError)?;
+            }
+            Err(SourceError(e)) => {
+                // the triples received so far have been consumed:
+                // close the open elements before reporting the source error
+                let _ = tf.finish();
+                return Err(SourceError(e));
+            }
+            Err(e) => return Err(e),
+        }
         Ok(self)
     }
 }
